@@ -296,8 +296,10 @@ class Interp:
                 pass
         # module-level singletons satisfy their class invariant: established by the module-initialisation
         # lemmas (contracts/module_init.py), assumed wherever the global is used
-        self.ctx.notes.append("global %s assumed to satisfy its class invariant (proved by lemma module_init)" % label.split(".")[-1]) if self.reg.invariants.get(cls.qual) else None
-        self.ctx.verifier.assume_invariants(self, o, label)
+        if not getattr(self.ctx, "raw_globals", False):
+            if self.reg.invariants.get(cls.qual):
+                self.ctx.notes.append("global %s assumed to satisfy its class invariant (proved by lemma module_init)" % label.split(".")[-1])
+            self.ctx.verifier.assume_invariants(self, o, label)
         return o
 
     # =========================================================================================
@@ -1011,6 +1013,15 @@ class Interp:
                 return None
             if nm == "sha_injective":
                 sym.sha_injective()
+                return None
+            if nm == "ground":
+                # closed expression evaluated on the REAL module by the oracle (ground back end)
+                src = self.eval(node.args[0], frame, True)
+                v = self.ctx.verifier.ground_eval(frame.module.name, src)
+                self.ctx.notes.append("ground: %s.%s" % (frame.module.name, src))
+                return v
+            if nm == "raw_globals":
+                self.ctx.raw_globals = True
                 return None
             if nm == "try_call":
                 fv = self.eval(node.args[0], frame, False)
